@@ -1,6 +1,7 @@
 """C03: with-blocks: the real generator's code for nested / sequenced conditional
 blocks is executed in the Coq ISA model; every block must run exactly the branch
 its condition selects and execution must continue after the construct."""
+import random
 from .common import Check, Err, clist
 from . import dsl, exprs, isa_check
 from .c01 import GenCheck, layout_bytes, read_var, env_of
@@ -101,12 +102,15 @@ class C03(GenCheck):
     def make_case(self, rng):
         nvars = rng.randint(1, 3)
         decls, values = [], {}
+        if not hasattr(self, "_rng_bo"):
+            self._rng_bo = random.Random(self.seed + 3303)   # its own stream: the other choices stay as they were
+        rng_bo = self._rng_bo
         for k in range(nvars):
             fmt = rng.choice(exprs.FMTS)
-            if rng.random() < 0.2:
+            if rng_bo.random() < 0.2:
                 # a variable declared with an explicit byte order (its value is the same, its bytes in memory differ): compared with
                 # other variables and with constants too wide for an immediate, both operands need a scratch register
-                fmt = rng.choice("<>!") + fmt
+                fmt = rng_bo.choice("<>!") + fmt
             decls.append((f"v{k}", rng.choice(["local", "array"]), fmt))
             values[f"v{k}"] = exprs.rand_value(rng, fmt)
         for k in range(rng.choice([0, 0, 1, 2])):
@@ -199,8 +203,51 @@ class C03(GenCheck):
             case["vm"] = [n, [r for r in (6, 7, 8) if r not in reginit][0], rng.choice([0, 8, 24])]
         return case
 
+    def edge_case(self, rng, idx):
+        """two operand combinations the random conditions reach too seldom for 400 cases, on their own stream: a 64-bit operand against a
+        narrower signed variable holding a negative value, and a fixed-point variable sitting exactly at a negative decimal constant"""
+        op = rng.choice(CMP)
+        if idx % 3 == 2:
+            # a block whose last statement is a nested block ending the program, followed by an Else block: all four outcomes
+            f0, f1 = rng.choice("BHiq"), rng.choice("BhIq")
+            decls = [("v0", rng.choice(["local", "array"]), f0), ("v1", rng.choice(["local", "array"]), f1)]
+            values = {"v0": rng.randint(0, 3), "v1": rng.randint(0, 3)}
+            outer = [op, ["v", "v0"], ["c", rng.randint(0, 3)]]
+            inner = [rng.choice(CMP), ["v", "v1"], ["c", rng.randint(0, 3)]]
+            if rng.random() < 0.3:
+                outer = [rng.choice(["and", "or"]), outer, [rng.choice(CMP), ["v", "v1"], ["c", rng.randint(0, 3)]]]
+            nested = ["if", inner, [["set", ["v", "m1"], ["c", 1]], ["exit", 2]], None]
+            stmts = [["if", outer, [["set", ["v", "m0"], ["c", 1]], nested], [["set", ["v", "m0"], ["c", 2]]]],
+                     ["set", ["v", "end"], ["c", 77]]]
+            decls += [("m0", "local", "B"), ("m1", "local", "B"), ("end", "local", "B")]
+            values.update(m0=0, m1=0, end=0)
+            return {"decls": decls, "values": values, "reginit": {}, "regs": [], "stmts": stmts}
+        if idx % 3 == 0:
+            nf = rng.choice("bhi")
+            nb = dsl.fmt_size(nf)
+            small = -rng.randint(1, (1 << (8 * nb - 1)) - 1) if rng.random() < 0.8 else rng.randint(0, 100)
+            wide = small + rng.choice([-1, 0, 0, 1, rng.randint(-50, 50)])
+            decls = [("v0", rng.choice(["local", "array"]), "q"), ("v1", rng.choice(["local", "array"]), nf)]
+            values = {"v0": wide, "v1": small}
+            cond = [op, ["v", "v0"], ["v", "v1"]] if rng.random() < 0.75 else [op, ["v", "v1"], ["v", "v0"]]
+        else:
+            c = rng.choice([-3.5, -0.29, -2.25, -1.0, -100.00001, -21474.83648, -0.00001, 3.5, -7.125])
+            decls = [("x0", rng.choice(["local", "array"]), "x")]
+            values = {"x0": round(c * FB) + rng.choice([-1, 0, 0, 0, 1])}
+            cond = ["xcmp", op, "x0", ["c", c]]
+        if rng.random() < 0.3:
+            cond = ["not", cond]
+        els = [["set", ["v", "m0"], ["c", 2]]] if rng.random() < 0.7 else None
+        stmts = [["if", cond, [["set", ["v", "m0"], ["c", 1]]], els], ["set", ["v", "end"], ["c", 77]]]
+        decls += [("m0", "local", "B"), ("end", "local", "B")]
+        values.update(m0=0, end=0)
+        return {"decls": decls, "values": values, "reginit": {}, "regs": [], "stmts": stmts}
+
     def gen_cases(self):
-        return [self.make_case(self.rng) for _ in range(400 if self.tier == "quick" else 6000)]
+        quick = self.tier == "quick"
+        cases = [self.make_case(self.rng) for _ in range(400 if quick else 6000)]
+        rng2 = random.Random(self.seed + 3304)
+        return cases + [self.edge_case(rng2, i) for i in range(60 if quick else 900)]
 
     def stmts(self, case):
         pre = [["set", ["r", "r", no], ["c", v]] for no, v in sorted(case["reginit"].items())]
@@ -282,6 +329,11 @@ class C03(GenCheck):
         o = case.get("_o")
         if o is None or isinstance(o, Err) or k_elif_after_bit_test(case):
             return None          # the open finding: which blocks were "reached" cannot be told from the markers there
+        env = env_of(case)
+        ok_all = [True]
+        self.walk(case["stmts"], env, dict(case["values"]), ok_all)
+        if not ok_all[0]:
+            return None          # a value inside a condition does not fit the narrowest width involved: outside the property (and the model)
         return f"(run {clist([self.ccond(case, c) for c, _ in self.reached(case['stmts'], o, [])])})"
 
     def model_value(self, case, o):
@@ -302,6 +354,22 @@ class C03(GenCheck):
         return case["_o"]
 
     # ---- exact truth with the property's precondition
+    @staticmethod
+    def operands_fit(x, env, W):
+        """the precondition "all values fit the narrowest width involved" for the operands INSIDE an expression: a constant of 64 bits
+        combined with a 4-byte variable (v & -2**63) is outside it - the generator extends the variable as if it were signed"""
+        if x[0] in ("c", "v", "r"):
+            return True
+        if x[0] in ("neg", "abs"):
+            return C03.operands_fit(x[1], env, W)
+        for sub in x[1:]:
+            if not C03.operands_fit(sub, env, W):
+                return False
+            vals, ok, _ = exprs.meaning(sub, env, W)
+            if not ok or not exprs.fits(vals[0], W, exprs.signed_of(sub, env) or vals[0] < 0):
+                return False
+        return True
+
     def truth(self, c, env):
         """(truth value, precondition ok)"""
         if c[0] == "and":
@@ -323,12 +391,12 @@ class C03(GenCheck):
             W = 32 if any((exprs.leaf_info(l, env)[0] or 8) <= 4 for l in exprs.leaves(c[1])) else 64
             vals, ok, _ = exprs.meaning(c[1], env, W)
             sg = exprs.signed_of(c[1], env)
-            return vals[0] != 0, ok and exprs.fits(vals[0], W, sg)
+            return vals[0] != 0, ok and exprs.fits(vals[0], W, sg) and self.operands_fit(c[1], env, W)
         W = 32 if any((exprs.leaf_info(l, env)[0] or 8) <= 4 for l in exprs.leaves(c[1]) + exprs.leaves(c[2])) else 64
         va, oka, _ = exprs.meaning(c[1], env, W)
         vb, okb, _ = exprs.meaning(c[2], env, W)
         sg = exprs.signed_of(c[1], env) or exprs.signed_of(c[2], env)
-        ok = oka and okb and exprs.fits(va[0], W, sg) and exprs.fits(vb[0], W, sg)
+        ok = oka and okb and exprs.fits(va[0], W, sg) and exprs.fits(vb[0], W, sg) and self.operands_fit(c[1], env, W) and self.operands_fit(c[2], env, W)
         a, b = va[0], vb[0]
         t = {"==": a == b, "!=": a != b, "<": a < b, "<=": a <= b, ">": a > b, ">=": a >= b}[c[0]]
         return t, ok
